@@ -355,9 +355,13 @@ func simC03Sets(c *Ctx) {
 	if o.LongColl > 0 && n > 9 {
 		n = 9 // (cost: every member is rendered and hashed again and again)
 	}
+	twins := injectionMembers(r.ety, c.G(8))
 	for i := 0; i < n; i++ {
 		var d *VDesc
-		if i > 0 && c.G(4) == 3 {
+		if twins != nil && i < 2 {
+			d = twins[i] // two different members that a hash over an unescaped rendering cannot tell apart
+			c.Probe("c03.injection-twins")
+		} else if i > 0 && c.G(4) == 3 {
 			// the same member again in another representation (precision, spelling)
 			d = reRepresent(c, r.pop[c.G(i)].d)
 		} else {
